@@ -70,6 +70,7 @@ pub fn outcome_from(stats: &Stats, aborted: &Option<String>) -> Outcome {
         .class_if(stats.nonvital_delivered > 0, "nonvital_delivered")
         .class_if(stats.drops > 0, "drop")
         .class_if(stats.dups > 0, "dup")
+        .class_if(stats.recoded > 0, "recoded")
         .class_if(stats.reorders > 0, "reorder")
         .class_if(stats.max_unacked >= 100, "hundred_plus_unacked")
         .class_if(stats.sessions >= 2, "second_session")
